@@ -525,6 +525,17 @@ func (c *Case) belowEmbedded(tc pathCand, path []string) bool {
 	return ok && (ft.Kind() == reflect.Struct || ft == tAny)
 }
 
+// kindsOf: which container kinds lie on a target path (S struct field, M map key, A any hole, P pointer).
+func kindsOf(shape string) string {
+	out := ""
+	for _, k := range "AMPS" {
+		if strings.ContainsRune(shape, k) {
+			out += string(k)
+		}
+	}
+	return out
+}
+
 // diffClass names the input class of the first declared target whose position
 // differs between the expected and the observed value.
 func (c *Case) diffClass(exp, obs *tree, fallback string) string {
@@ -543,7 +554,7 @@ func (c *Case) diffClass(exp, obs *tree, fallback string) string {
 		case fallback != "no-known-hazard":
 			return fallback
 		default:
-			return "target-shape-" + tc.Shape
+			return "target-path-kinds-" + kindsOf(tc.Shape)
 		}
 	}
 	for _, m := range c.Maps {
